@@ -169,6 +169,12 @@ def jobs(tier, seed):
             out.append(dict(engine='mp', m=3, t=1, no_prss=no_prss, ops=names[i:i + 4], tier=tier, seed=seed))
     out.append(dict(engine='mp_io', m=3, t=1, no_prss=False, tier=tier, seed=seed))
     out.append(dict(engine='mp_io', m=3, t=1, no_prss=True, tier=tier, seed=seed))
+    for mode in ('single', 'single-explicit', 'all'):
+        for no_prss in (False, True):
+            out.append(dict(engine='mp_private', m=3, t=1, no_prss=no_prss, mode=mode, tier=tier, seed=seed))
+    if tier == 'thorough':
+        out.append(dict(engine='mp_private', m=2, t=0, no_prss=False, mode='all', tier=tier, seed=seed))
+        out.append(dict(engine='mp_private', m=4, t=1, no_prss=False, mode='single', tier=tier, seed=seed))
     return out
 
 
@@ -177,6 +183,8 @@ def run_job(job):
         return run_sp(job)
     if job['engine'] == 'mp_io':
         return run_mp_io(job)
+    if job['engine'] == 'mp_private':
+        return run_mp_private(job)
     return run_mp(job)
 
 
@@ -326,7 +334,106 @@ def run_mp_io(job):
     return part
 
 
+def own_mark(a):
+    """The integrality mark the constructor gives to alphabet entry a."""
+    v, mark = a
+    return False if mark is False else v.denominator == 1
+
+
+async def private_program(mpc, ctx):
+    """Private inputs: a party constructs only its OWN value.  mode 'single': one sender per input, the other parties pass the
+    placeholder T(None); 'single-explicit': the placeholder carries the sender's mark, T(None, integral=mark) (how the library's own
+    protocols call input()); 'all': every party is a sender of its own value."""
+    await mpc.start()
+    T = mpc.SecFxp(L_, F_)
+    m = len(mpc.parties)
+    tup = ctx['case']
+    if ctx['mode'] == 'all':
+        xs = mpc.input(mk(T, ALPHA[tup[mpc.pid % len(tup)]]))[:len(tup)]
+    else:
+        xs = []
+        for j, i in enumerate(tup):
+            if mpc.pid == j % m:
+                x = mk(T, ALPHA[i])
+            elif ctx['mode'] == 'single':
+                x = T(None)
+            else:
+                x = T(None, integral=own_mark(ALPHA[i]))
+            xs.append(mpc.input(x, senders=j % m))
+    a, b = xs[0], xs[1]
+    rs = list(xs) + [a * b, a + b, a * a, mpc.prod([a, b]), mpc.in_prod([a, b], [b, a])] + mpc.schur_prod([a, b], [b, b])
+    flags = [r.integral for r in rs]
+    vals = await mpc.output(rs)
+    ctx['results'] = list(zip(flags, vals))
+    await mpc.shutdown()
+
+
+KNOWN_PRIVATE = '!private-input:marks-inferred-from-private-values'
+
+
+def run_mp_private(job):
+    from mc.explorer import run_execution
+    part = Part()
+    m, t, mode = job['m'], job['t'], job['mode']
+    world = exact.make_world(m, t, job['no_prss'], 30)
+    n = m if mode == 'all' else 2
+    tups = [tup for tup in itertools.product(range(len(ALPHA)), repeat=n)
+            if all(in_range(8 * val(ALPHA[i]) * val(ALPHA[j])) for i in tup for j in tup)]
+    if n > 2:
+        tups = [tp for tp in tups if len(set(tp)) > 1 and all(i in (1, 3, 4, 7) for i in tp[2:])]
+    cfg = f"mp/m{m}t{t}{'-noprss' if job['no_prss'] else ''}/private-{mode}"
+    for tup in tups:
+        ctxs = []
+
+        def setup(w):
+            ctxs.clear()
+            w.mask_pattern = 'seeded'
+            for i, s in enumerate(world.script_seams):
+                s.begin('seeded', job['seed'] * 100 + i, None)
+            for p in range(m):
+                ctxs.append(dict(case=tup, mode=mode))
+                w.spawn(p, private_program, ctxs[p])
+        x = run_execution(world, setup, (), 'eager', 'none', sched_alts=False)
+        detail = dict(engine='mp_private', job=dict(job), tup=list(tup))
+        ops = [ALPHA[i] for i in tup]
+        shown = [(float(v), mk_) for v, mk_ in ops]
+        marks = [own_mark(a) for a in ops]
+        # Known region (DESIGN 10): input() labels what it receives with the marks of the party's OWN argument, so the parties
+        # disagree when those marks differ (a whole private value against a placeholder or a non-whole value)
+        if mode == 'single':
+            region = any(marks[:2])
+        elif mode == 'all':
+            region = len(set(marks)) > 1
+        else:
+            region = False
+
+        def key(k):
+            return KNOWN_PRIVATE[1:] if region else k
+        sub = Part()
+        if x.status != 'done' or any('results' not in c for c in ctxs):
+            sub.case(key=None)
+            sub.violation(f'C03:private-input:{mode}:incomplete',
+                          f'[{cfg}] parties input their own values {shown} (own marks {marks}): run ends {x.status} '
+                          f'{world.loop_errors!r:.200}', detail)
+        else:
+            res0 = ctxs[0]['results']
+            if any([f for f, _ in c['results']] != [f for f, _ in res0] for c in ctxs):
+                sub.violation(f'C03:private-input:{mode}:parties-differ-on-marks',
+                              f'[{cfg}] inputs {shown}: marks per party {[[f for f, _ in c["results"]] for c in ctxs]}', detail)
+            a, b = val(ops[0]), val(ops[1])
+            ref = [val(o) for o in ops] + [a * b, a + b, a * a, a * b, 2 * a * b, a * b, b * b]
+            for p_, c in enumerate(ctxs):
+                judge(sub, f'{cfg}/party{p_}', f'private-input:{mode}', ops, c['results'], ref, 3, detail)
+        if region:
+            for v in sub.violations:
+                v['key'] = 'C03:' + KNOWN_PRIVATE[1:]
+        part.merge(sub)
+    return part
+
+
 def replay(case):
+    if case.get('engine') == 'mp_private':
+        return run_mp_private(case['job'])
     if case.get('engine') == 'sp':
         return run_sp(dict(ops=[case['name']], tier='quick', seed=case['seed']))
     if case.get('engine') == 'mp_io':
